@@ -62,7 +62,8 @@ Definition mkc (m cm : nat) (q : list rsp) (l : bool) : client :=
 Definition ask_outcome (accept : rsp -> bool) (k : rsp -> outcome val) (r : option rsp) : outcome val :=
   match r with
   | None => Raise ETimeout
-  | Some m => if accept m then match m with RErr _ _ code => Raise (EAtt code) | _ => k m end
+  | Some m => if is_cmd_err m then Raise ETimeout
+              else if accept m then match m with RErr _ _ code => Raise (EAtt code) | _ => k m end
               else Raise ETimeout
   end.
 
@@ -74,7 +75,8 @@ Proof.
   intros He. unfold ask, xfer. rewrite He.
   destruct (server_step s q) as [s' r]. cbn [fst snd].
   destruct r as [x|]; cbn [deliver ask_outcome].
-  - unfold wait, set_q, mkc. cbn [c_q c_mtu c_cmtu c_locked app wait_in].
+  - unfold wait, set_q, mkc. cbn [c_q c_mtu c_cmtu c_locked app wait_in is_cmd_err].
+    destruct (is_cmd_err x); [reflexivity|].
     destruct (accept x); [destruct x; reflexivity | reflexivity].
   - unfold wait, mkc. cbn. reflexivity.
 Qed.
@@ -208,7 +210,7 @@ Proof.
     rewrite (Hstep (QRead h) (RRead (firstn m S))).
     2:{ cbn [encodable]. now apply fits16_N. }
     2:{ rewrite srv_read_target with (S := S) by assumption. rewrite Hm. reflexivity. }
-    unfold wait. cbn [mkc c_q wait_in acc_read_or_blob set_q c_mtu c_cmtu c_locked].
+    unfold wait. cbn [mkc c_q wait_in is_cmd_err acc_read_or_blob set_q c_mtu c_cmtu c_locked].
     rewrite firstn_length. cbn [app].
     destruct (Nat.min m (length S) <? m) eqn:E.
     + apply Nat.ltb_lt in E. rewrite firstn_all2 by lia. reflexivity.
@@ -226,7 +228,7 @@ Proof.
     rewrite (Hstep (QBlob h off) (RBlob (slice off (off + m) S))).
     2:{ cbn [encodable]. rewrite fits16_N by assumption. rewrite fits16_nat by lia. reflexivity. }
     2:{ rewrite srv_blob_target with (S := S) by assumption. rewrite Hm. reflexivity. }
-    unfold wait. cbn [mkc c_q wait_in acc_read_or_blob set_q c_mtu c_cmtu c_locked].
+    unfold wait. cbn [mkc c_q wait_in is_cmd_err acc_read_or_blob set_q c_mtu c_cmtu c_locked].
     rewrite slice_length. replace (off + m - off) with m by lia.
     destruct (Nat.min m (length S - off) <? m) eqn:E.
     + apply Nat.ltb_lt in E. unfold slice. replace (off + m - off) with m by lia.
@@ -339,7 +341,7 @@ Proof.
   - rewrite app_nil_r, <- Hwq. destruct s; reflexivity.
   - unfold xfer. cbn [encodable]. rewrite fits16_N by assumption. rewrite fits16_nat by lia.
     cbn [andb]. unfold server_step. unfold srv_prepare. rewrite Hlk.
-    cbn [deliver]. unfold wait, set_q, mkc. cbn [c_q c_mtu c_cmtu c_locked app wait_in acc_prep].
+    cbn [deliver]. unfold wait, set_q, mkc. cbn [c_q c_mtu c_cmtu c_locked app wait_in is_cmd_err acc_prep].
     set (d := slice off (off + cs) v).
     change {| c_mtu := mtu; c_cmtu := cm; c_q := []; c_locked := true |} with (mkc mtu cm [] true).
     rewrite Hwq, wq_add_pend.
@@ -597,7 +599,7 @@ Proof.
   rewrite fits16_nat by assumption.
   unfold server_step. unfold srv_mtu.
   replace (23 <=? m) with true by (symmetry; apply Nat.leb_le; lia).
-  cbn [s_smtu deliver]. unfold wait, set_q. cbn [c_q app wait_in acc_mtu c_mtu c_cmtu c_locked releases].
+  cbn [s_smtu deliver]. unfold wait, set_q. cbn [c_q app wait_in is_cmd_err acc_mtu c_mtu c_cmtu c_locked releases].
   replace (23 <=? m) with true by (symmetry; apply Nat.leb_le; lia).
   eexists _, _. split; [reflexivity|]. split; [|reflexivity].
   constructor; cbn; auto.
@@ -753,6 +755,7 @@ Definition good_k (accept : rsp -> bool) (k : rsp -> outcome val) : Prop :=
 Lemma ask_outcome_usable accept k r : good_k accept k -> usable (ask_outcome accept k r).
 Proof.
   intros Hk. destruct r as [x|]; cbn [ask_outcome]; [|exact I].
+  destruct (is_cmd_err x); [exact I|].
   destruct (accept x) eqn:E; [|exact I].
   destruct x; try exact I; (destruct (Hk _ E eq_refl) as [r ->]; exact I).
 Qed.
@@ -842,9 +845,10 @@ Proof.
     - apply Nat.ltb_ge in E. destruct Hv as [->|Hv]; [cbn [length] in E; lia|].
       apply IH; try lia. intros Hnil. apply app_eq_nil in Hnil as [_ ->]. cbn [length] in E. lia. }
   destruct r as [m|]; cbn [deliver]; unfold wait, set_q, mkc;
-    cbn [c_q c_mtu c_cmtu c_locked app wait_in].
+    cbn [c_q c_mtu c_cmtu c_locked app wait_in is_cmd_err].
   - destruct m; cbn [rl_resp] in Hr; try contradiction; cbn [acc_read_or_blob is_err].
-    + eexists; split; [reflexivity|exact I].
+    + destruct (is_cmd_err (RErr rq h0 code));
+        (eexists; split; [reflexivity|exact I]).
     + apply Hcont. exact Hr.
     + apply Hcont. exact Hr.
   - eexists; split; [reflexivity|exact I].
@@ -932,7 +936,7 @@ Proof.
       constructor; cbn [crashed wq sdb set_db set_wq]; auto. exact (conj W1 W2).
     + unfold xfer. cbn [encodable]. rewrite fits16_N by assumption. cbn [N.of_nat fits16 N.ltb N.compare andb].
       unfold server_step. unfold srv_prepare. rewrite Elk.
-      cbn [deliver]. unfold wait, set_q. cbn [c_q c_mtu c_cmtu c_locked app wait_in acc_prep is_err].
+      cbn [deliver]. unfold wait, set_q. cbn [c_q c_mtu c_cmtu c_locked app wait_in is_cmd_err acc_prep is_err].
       eexists _, _. split; [reflexivity|]. split; [exact I|]. split; [assumption|reflexivity].
 Qed.
 
@@ -1051,6 +1055,220 @@ Proof.
     destruct (run_op_usable o c s mtu Hcl Hs Ha1 Hn1) as (out & c1 & s1 & mtu1 & He & Hu & Hcl1 & Hs1).
     rewrite He in Hn2 |- *.
     destruct (IH c1 s1 mtu1 Hcl1 Hs1 Ha2 Hn2) as (outs & c2 & s2 & mtu2 & He2 & Hu2 & Hcl2 & Hs2).
+    rewrite He2. exists (out :: outs), c2, s2, mtu2. auto.
+Qed.
+
+(** ** stale Error Responses of refused commands *)
+
+(** the queue holds nothing but Error Responses sent for commands *)
+Definition cmd_only (q : list rsp) : Prop := Forall (fun m => is_cmd_err m = true) q.
+
+(** the state between two procedures, as the repaired client leaves it: a refused Write Command
+    may have left its Error Response in the queue *)
+Record ready (c : client) (s : server) (mtu : nat) : Prop := {
+  rd_lock : c_locked c = false;
+  rd_q : cmd_only (c_q c);
+  rd_wq : wq s = [];
+  rd_crash : crashed s = false;
+  rd_cmtu : c_mtu c = mtu;
+  rd_smtu : s_cmtu s = mtu;
+  rd_mtu : 23 <= mtu
+}.
+
+Definition flush (c : client) : client := set_q c [].
+
+Lemma clean_ready c s mtu : clean c s mtu -> ready c s mtu.
+Proof. intros [H1 H2 H3 H4 H5 H6 H7]. constructor; auto. rewrite H2. constructor. Qed.
+
+Lemma ready_flush c s mtu : ready c s mtu -> clean (flush c) s mtu.
+Proof. intros [H1 H2 H3 H4 H5 H6 H7]. destruct c. constructor; cbn in *; auto. Qed.
+
+Lemma wait_in_flush accept q l : cmd_only q -> wait_in accept (q ++ l) = wait_in accept l.
+Proof.
+  induction 1 as [|m q Hm _ IH]; cbn [app wait_in]; [reflexivity|]. now rewrite Hm.
+Qed.
+
+Lemma wait_in_cmd_only accept q : cmd_only q -> wait_in accept q = (None, []).
+Proof. intros H. rewrite <- (app_nil_r q). now rewrite wait_in_flush. Qed.
+
+(** sending a request and waiting for its answer: the stale command errors change nothing *)
+Lemma xfer_wait_flush accept rq m cm q l s :
+  cmd_only q ->
+  match xfer (mkc m cm q l) s rq with
+  | None => None
+  | Some (c1, s1) => Some (wait accept c1, s1)
+  end
+  = match xfer (mkc m cm [] l) s rq with
+    | None => None
+    | Some (c1, s1) => Some (wait accept c1, s1)
+    end.
+Proof.
+  intros Hq. unfold xfer. destruct (encodable rq); [|reflexivity].
+  destruct (server_step s rq) as [s1 r]. f_equal. f_equal.
+  destruct r as [x|]; cbn [deliver]; unfold wait, set_q, mkc; cbn [c_q c_mtu c_cmtu c_locked app].
+  - now rewrite wait_in_flush.
+  - now rewrite wait_in_cmd_only.
+Qed.
+
+Lemma ask_flush accept rq k m cm q l s :
+  cmd_only q -> encodable rq = true ->
+  ask accept rq k (mkc m cm q l) s = ask accept rq k (mkc m cm [] l) s.
+Proof.
+  intros Hq He. pose proof (xfer_wait_flush accept rq m cm q l s Hq) as H.
+  unfold ask. unfold xfer in *. rewrite He in *.
+  destruct (server_step s rq) as [s1 r].
+  injection H as H. rewrite H. reflexivity.
+Qed.
+
+Lemma read_long_loop_flush f h mtu m cm q l s :
+  cmd_only q -> (h < 65536)%N ->
+  read_long_loop (S f) h mtu [] 0 (mkc m cm q l) s = read_long_loop (S f) h mtu [] 0 (mkc m cm [] l) s.
+Proof.
+  intros Hq Hh. pose proof (xfer_wait_flush acc_read_or_blob (QRead h) m cm q l s Hq) as H.
+  cbn [read_long_loop]. unfold xfer in *. cbn [encodable] in *. rewrite fits16_N in * by assumption.
+  destruct (server_step s (QRead h)) as [s1 r].
+  injection H as H. rewrite H. reflexivity.
+Qed.
+
+Lemma prep_loop_flush n h v cs m cm q l s :
+  cmd_only q -> (h < 65536)%N ->
+  prep_loop (S n) h v cs 0 (mkc m cm q l) s = prep_loop (S n) h v cs 0 (mkc m cm [] l) s.
+Proof.
+  intros Hq Hh. set (rq := QPrep h 0 (slice 0 (0 + cs) v)).
+  pose proof (xfer_wait_flush acc_prep rq m cm q l s Hq) as H.
+  cbn [prep_loop]. fold rq. unfold xfer in *. subst rq. cbn [encodable] in *.
+  rewrite fits16_N in * by assumption. cbn [N.of_nat fits16 N.ltb N.compare andb] in *.
+  destruct (server_step s (QPrep h 0 (slice 0 (0 + cs) v))) as [s1 r].
+  injection H as H. rewrite H. reflexivity.
+Qed.
+
+Lemma write_long_nolock_flush h v m cm q s :
+  cmd_only q -> (h < 65536)%N ->
+  write_long_nolock h v (mkc m cm q true) s = write_long_nolock h v (mkc m cm [] true) s.
+Proof.
+  intros Hq Hh. unfold write_long_nolock. cbn [mkc c_mtu].
+  change {| c_mtu := m; c_cmtu := cm; c_q := q; c_locked := true |} with (mkc m cm q true).
+  change {| c_mtu := m; c_cmtu := cm; c_q := []; c_locked := true |} with (mkc m cm [] true).
+  destruct (nb_chunks (length v) (m - 5)) as [|n].
+  - cbn [prep_loop]. apply ask_flush; [assumption|reflexivity].
+  - now rewrite prep_loop_flush.
+Qed.
+
+(** the operations that wait for an answer *)
+Definition waits (o : op) : bool :=
+  match o with
+  | OSetMtu m => 23 <=? m
+  | OWriteCmd _ _ => false
+  | _ => true
+  end.
+
+(** a procedure that waits for an answer behaves exactly as if the queue were empty *)
+Lemma run_op_flush o c s mtu :
+  ready c s mtu -> args_ok o -> waits o = true ->
+  run_op o c s = run_op o (flush c) s.
+Proof.
+  intros [Hl Hq _ _ Hm1 _ _] Ha Hw.
+  destruct c as [m cm q l]. cbn in Hl, Hq, Hm1. subst l m. unfold flush, set_q. cbn [c_mtu c_cmtu c_q c_locked].
+  change {| c_mtu := mtu; c_cmtu := cm; c_q := q; c_locked := false |} with (mkc mtu cm q false).
+  change {| c_mtu := mtu; c_cmtu := cm; c_q := []; c_locked := false |} with (mkc mtu cm [] false).
+  assert (Hproc : forall body : client -> server -> result,
+            body (mkc mtu cm q true) s = body (mkc mtu cm [] true) s ->
+            proclock body (mkc mtu cm q false) s = proclock body (mkc mtu cm [] false) s).
+  { intros body Hb. unfold proclock, set_lock, mkc. cbn [c_locked c_mtu c_cmtu c_q].
+    unfold mkc in Hb. rewrite Hb. reflexivity. }
+  destruct o as [m | h | h off | h | h v | h v | h v]; cbn [run_op args_ok waits] in *.
+  - (* set_mtu *)
+    unfold client_set_mtu. apply Hproc. rewrite Hw.
+    pose proof (xfer_wait_flush acc_mtu (QMtu m) mtu cm q true s Hq) as H.
+    unfold xfer in *. cbn [encodable] in *. rewrite fits16_nat in * by assumption.
+    destruct (server_step s (QMtu m)) as [s1 r]. injection H as H. rewrite H. reflexivity.
+  - unfold client_read. apply Hproc. apply ask_flush; [assumption|]. cbn [encodable]. now apply fits16_N.
+  - destruct Ha as [Hh Ho]. unfold client_read_blob. apply Hproc. apply ask_flush; [assumption|].
+    cbn [encodable]. now rewrite fits16_N, fits16_nat.
+  - unfold client_read_long. apply Hproc. cbn [mkc c_mtu]. unfold read_long_fuel.
+    rewrite Nat.add_comm. cbn [Nat.add].
+    change {| c_mtu := mtu; c_cmtu := cm; c_q := q; c_locked := true |} with (mkc mtu cm q true).
+    change {| c_mtu := mtu; c_cmtu := cm; c_q := []; c_locked := true |} with (mkc mtu cm [] true).
+    now apply read_long_loop_flush.
+  - destruct Ha as [Hh Hv]. unfold client_write. apply Hproc. cbn [mkc c_mtu].
+    change {| c_mtu := mtu; c_cmtu := cm; c_q := q; c_locked := true |} with (mkc mtu cm q true).
+    change {| c_mtu := mtu; c_cmtu := cm; c_q := []; c_locked := true |} with (mkc mtu cm [] true).
+    destruct (mtu - 3 <? length v).
+    + now apply write_long_nolock_flush.
+    + apply ask_flush; [assumption|]. cbn [encodable]. now apply fits16_N.
+  - destruct Ha as [Hh Hv]. unfold client_write_long. apply Hproc. now apply write_long_nolock_flush.
+  - discriminate.
+Qed.
+
+Lemma stale_command_errors_ignored o c s mtu :
+  ready c s mtu -> args_ok o -> waits o = true ->
+  run_op o c s = run_op o (flush c) s /\ clean (flush c) s mtu.
+Proof. intros Hr Ha Hw. split; [exact (run_op_flush o c s mtu Hr Ha Hw) | exact (ready_flush c s mtu Hr)]. Qed.
+
+(** the server answers a Write Command with nothing, or with an Error Response naming the
+    command *)
+Lemma write_cmd_answer s h v :
+  sinv s ->
+  snd (server_step s (QWriteCmd h v)) = None
+  \/ exists hh code, snd (server_step s (QWriteCmd h v)) = Some (RErr OP_WRITE_CMD hh code).
+Proof.
+  intros [_ _ [W1 _] _]. unfold server_step, srv_write_cmd.
+  destruct (N.eqb h 0); [right; cbn [snd]; eauto|].
+  destruct (lookup (sdb s) h) as [a|] eqn:E; [|right; cbn [snd]; eauto].
+  destruct a; cbn [snd]; eauto.
+  - destruct (W1 _ _ _ E) as [p Hp]. rewrite Hp. destruct (writeable p); cbn [snd]; eauto.
+  - destruct ((length v <=? 2) && negb (bytes_eqb v v0)); cbn [snd]; eauto.
+Qed.
+
+(** any procedure from a ready state: usable outcome, ready state again *)
+Lemma run_op_ready o c s mtu :
+  ready c s mtu -> sinv s -> args_ok o ->
+  exists out c' s' mtu', run_op o c s = (out, c', s') /\ usable out /\ ready c' s' mtu' /\ sinv s'.
+Proof.
+  intros Hr Hs Ha.
+  destruct (waits o) eqn:Hw.
+  - (* waiting procedure: as from the flushed state *)
+    rewrite (run_op_flush o c s mtu Hr Ha Hw).
+    assert (Hn : cmd_not_refused o s) by (destruct o; try exact I; discriminate).
+    destruct (run_op_usable o (flush c) s mtu (ready_flush _ _ _ Hr) Hs Ha Hn)
+      as (out & c' & s' & mtu' & He & Hu & Hcl & Hs').
+    exists out, c', s', mtu'. split; [exact He|]. split; [exact Hu|]. split; [now apply clean_ready|exact Hs'].
+  - pose proof Hr as [Hl Hq Hwq Hc Hm1 Hm2 Hm].
+    destruct c as [m cm q l]. cbn in Hl, Hq, Hm1. subst l m.
+    destruct o as [m | h | h off | h | h v | h v | h v]; cbn [waits] in Hw; try discriminate; cbn [run_op args_ok] in *.
+    + (* set_mtu below 23: nothing is sent *)
+      exists (Ok VNone), (mkc mtu cm q false), s, mtu.
+      unfold client_set_mtu, proclock, set_lock. cbn [c_locked c_mtu c_cmtu c_q]. rewrite Hw.
+      cbn [releases]. split; [reflexivity|]. split; [exact I|]. split; [exact Hr|exact Hs].
+    + (* write_command *)
+      destruct Ha as [Hh Hv].
+      destruct (srv_write_cmd_state s h v Hs Hv) as [Hs' Hmtu].
+      exists (Ok VTrue), (deliver (mkc mtu cm q false) (snd (server_step s (QWriteCmd h v)))),
+             (fst (server_step s (QWriteCmd h v))), mtu.
+      split; [|split; [exact I|split; [|exact Hs']]].
+      * unfold client_write_command, proclock, set_lock, xfer. cbn [c_locked c_mtu c_cmtu c_q encodable].
+        rewrite fits16_N by assumption.
+        destruct (server_step s (QWriteCmd h v)) as [s1 r]. cbn [fst snd releases].
+        destruct r; reflexivity.
+      * destruct Hs' as [Hc' Hq' _ _].
+        destruct (write_cmd_answer s h v Hs) as [E | (hh & code & E)]; rewrite E; cbn [deliver].
+        -- constructor; cbn [mkc c_locked c_q c_mtu]; auto. rewrite Hmtu. exact Hm2.
+        -- unfold set_q, mkc. constructor; cbn [c_locked c_q c_mtu]; auto; [|rewrite Hmtu; exact Hm2].
+           apply Forall_app. split; [exact Hq|]. constructor; [reflexivity|constructor].
+Qed.
+
+(** FULL: any sequence of procedures with any arguments leaves the client usable *)
+Lemma run_ops_ready ops : forall c s mtu,
+  ready c s mtu -> sinv s -> Forall args_ok ops ->
+  exists outs c' s' mtu', run_ops ops c s = (outs, c', s') /\ Forall usable outs
+                          /\ ready c' s' mtu' /\ sinv s'.
+Proof.
+  induction ops as [|o r IH]; intros c s mtu Hr Hs Ha; cbn [run_ops].
+  - exists [], c, s, mtu. auto.
+  - inversion Ha as [|? ? Ha1 Ha2]; subst.
+    destruct (run_op_ready o c s mtu Hr Hs Ha1) as (out & c1 & s1 & mtu1 & He & Hu & Hr1 & Hs1).
+    rewrite He.
+    destruct (IH c1 s1 mtu1 Hr1 Hs1 Ha2) as (outs & c2 & s2 & mtu2 & He2 & Hu2 & Hr2 & Hs2).
     rewrite He2. exists (out :: outs), c2, s2, mtu2. auto.
 Qed.
 
@@ -1302,19 +1520,15 @@ Proof.
   split; [vm_compute; reflexivity|]. vm_compute. intros H. discriminate H.
 Qed.
 
-Lemma client_usable_after_refuted :
-  exists ops d,
-    wf_dbb d = true /\ Forall args_ok ops
-    /\ (let '(outs, c', _) := run_ops ops client_init (server_init d) in
-        c_q c' <> []
-        /\ nth 2 outs Blocked = Ok (VBytes (repeat 9%N 22))
-        /\ lookup d 4 = Some (ADesc [1; 41] [1; 2])%N).
-Proof.
-  exists [OWriteCmd 99 [1%N]; ORead 3; ORead 4], d_wit.
-  split; [reflexivity|]. split.
-  - repeat constructor.
-  - vm_compute. split; [discriminate|]. split; reflexivity.
-Qed.
+(** the former witness of the write-command desynchronisation: the refused command's error
+    is dropped by the next wait, every read returns the value of ITS attribute *)
+Lemma refused_command_regression :
+  run_ops [OWriteCmd 99 [1%N]; ORead 3; ORead 4; OWriteCmd 0 []; OWriteLong 3 (repeat 5%N 40); OReadLong 3]
+          client_init (server_init d_wit)
+  = ([Ok VTrue; Ok (VBytes (repeat 9%N 22)); Ok (VBytes [1; 2]%N); Ok VTrue; Ok VTrue; Ok (VBytes (repeat 5%N 40))],
+     client_init,
+     server_init (update d_wit 3 (AValue [0; 42]%N (repeat 5%N 40)))).
+Proof. vm_compute. reflexivity. Qed.
 
 Lemma nonvacuous :
   let v := repeat 5%N 329 in
